@@ -61,21 +61,21 @@ Theorem c13_location_is_position : forall s sp,
 Proof. exact location_is_position_lemma. Qed.
 Print Assumptions c13_location_is_position.
 
-(* `composed` panics exactly for spans past the end of the (character) source -- assert!(e.location.is_some()) --
-   and for reversed spans (ariadne's Label::new asserts start <= end) *)
+(* `composed` panics exactly when the span, converted to characters, is past the end of the source --
+   assert!(e.location.is_some()) -- or reversed (ariadne's Label::new asserts start <= end) *)
 Theorem c13_composed_panics_iff : forall s sp,
   composed_one [(sp_src sp, s)] (Some sp) = Panic <->
-  (length s < sp_start sp \/ length s < sp_end sp \/ sp_end sp < sp_start sp).
+  (let sp' := span_to_chars s sp in length s < sp_start sp' \/ length s < sp_end sp' \/ sp_end sp' < sp_start sp').
 Proof. exact composed_one_panics_iff. Qed.
 Print Assumptions c13_composed_panics_iff.
 
-(* a span that `composed` leaves on a message names a file of the tree, has start <= end <= the character length of
-   that file and comes with the position of its two ends (full strength since 7cb9d46: before, a span of std.prql -- source 0 --
-   stayed on the message without naming any file of the caller's tree; finding C13-N2, fixed) *)
+(* a span that `composed` leaves on a message is the character conversion of the span it had, names a file of the tree,
+   has start <= end <= the character length of that file and comes with the position of its two ends (the file clause is
+   full strength since 7cb9d46: before, a span of std.prql -- source 0 -- stayed on the message; finding C13-N2, fixed) *)
 Theorem c13_reported_span_names_file : forall tree sp sp' loc,
   composed_one tree sp = Ret (Some sp', loc) ->
-  sp = Some sp' /\
-  exists s, find (fun p => Nat.eqb (fst p) (sp_src sp')) tree = Some (sp_src sp', s) /\
+  exists sp0 s, sp = Some sp0 /\ find (fun p => Nat.eqb (fst p) (sp_src sp')) tree = Some (sp_src sp', s) /\
+    sp' = span_to_chars s sp0 /\
     sp_start sp' <= sp_end sp' /\ sp_end sp' <= length s /\
     loc = Some (locate (lines s) (sp_start sp') 0, locate (lines s) (sp_end sp') 0).
 Proof. exact composed_one_reported. Qed.
@@ -150,99 +150,34 @@ Theorem c13_start_le_end_parser : forall toks i j sid,
 Proof. exact map_span_start_le_end. Qed.
 Print Assumptions c13_start_le_end_parser.
 
-(* ---- parser spans, in the unit the consumer expects ----
-   Full statement (FALSE on the unchanged tree, finding F9):
-     forall s toks i j, toks_okb 0 toks = true ->
-       boundary s (sp_start (map_span toks i j 1)) -> boundary s (sp_end (map_span toks i j 1)) ->
-       parser_error_location s toks i j = byte_span_location s (map_span toks i j 1).
-   i.e. what `composed` reports for a parser error (the token byte span read as CHARACTER offsets) is the
-   location of the characters at those byte offsets.  *)
-Theorem c13_parser_span_unit_refuted :
-  exists s toks i j, toks_okb 0 toks = true /\
-    boundary s (sp_start (map_span toks i j 1)) /\ boundary s (sp_end (map_span toks i j 1)) /\
-    parser_error_location s toks i j = Panic /\
-    byte_span_location s (map_span toks i j 1) = Ret (Some ((0, 1), (0, 2))).
-Proof.
-  exists [233; 43]%N, [(0, 2); (2, 3)], 1, 2. split; [reflexivity|]. split; [|split].
-  - exists 1. split; [cbn; auto | reflexivity].
-  - exists 2. split; [cbn; auto | reflexivity].
-  - split; vm_compute; reflexivity.
-Qed.
-Print Assumptions c13_parser_span_unit_refuted.
-
-(* the same with a wrong column instead of the assert panic: "é\n+x", error at `+` *)
-Theorem c13_parser_span_unit_refuted_shifted :
-  exists s toks i j, toks_okb 0 toks = true /\
-    parser_error_location s toks i j = Ret (Some ((1, 1), (1, 2))) /\
-    byte_span_location s (map_span toks i j 1) = Ret (Some ((1, 0), (1, 1))).
-Proof.
-  exists [233; 10; 43; 120]%N, [(0, 2); (2, 3); (3, 4); (4, 5)], 2, 3.
-  split; [reflexivity|]. split; vm_compute; reflexivity.
-Qed.
-Print Assumptions c13_parser_span_unit_refuted_shifted.
-
-(* outside the known class (non-ASCII text before the end of the span) every clause holds *)
-Theorem c13_parser_span_unit_partial : forall s toks i j,
+(* ---- parser errors: FULL STRENGTH since d3106b1 (finding F9, fixed: token byte spans used to be read as character
+   offsets, which shifted or panicked behind non-ASCII text; `c13_parser_span_unit_refuted/_partial/_iff` described that
+   and are gone).  A parser error over tokens i..j of ordered tokens on character boundaries is reported without a panic
+   as the CHARACTER span of the text from the start of token i to the end of token j-1, located at both ends. ---- *)
+Theorem c13_parser_error_located : forall s toks i j,
   let sp := map_span toks i j 1 in
-  ascii_before_byte s (sp_end sp) = true -> sp_start sp <= sp_end sp -> sp_end sp <= byte_len s ->
-  parser_error_location s toks i j = byte_span_location s sp.
-Proof. exact parser_span_unit_partial_lemma. Qed.
-Print Assumptions c13_parser_span_unit_partial.
+  toks_okb 0 toks = true -> i < j -> j <= length toks ->
+  boundary s (sp_start sp) -> boundary s (sp_end sp) ->
+  exists cs ce,
+    parser_error_reported s toks i j = Ret (Some (Span cs ce 1), Some (locate (lines s) cs 0, locate (lines s) ce 0)) /\
+    cs <= ce /\ ce <= length s /\ byte_of_char s cs = sp_start sp /\ byte_of_char s ce = sp_end sp.
+Proof. exact parser_error_located. Qed.
+Print Assumptions c13_parser_error_located.
 
-(* F9 as an exact characterisation, for every source: what is reported for a parser error is the location of the
-   characters at the token byte offsets IF AND ONLY IF the text before the end of the span is ASCII (otherwise the
-   assert panic or another line/column) *)
-Theorem c13_parser_span_unit_iff : forall s toks i j,
-  let sp := map_span toks i j 1 in
-  boundary s (sp_start sp) -> boundary s (sp_end sp) -> sp_start sp <= sp_end sp ->
-  (parser_error_location s toks i j = byte_span_location s sp <-> ascii_before_byte s (sp_end sp) = true).
-Proof. exact parser_span_unit_iff. Qed.
-Print Assumptions c13_parser_span_unit_iff.
-
-(* the same at the level of spans: a byte span is also the character span of the same text iff that text and
-   everything before it is ASCII *)
+(* why the conversion matters: a byte span is also the character span of the same text iff that text and everything
+   before it is ASCII *)
 Theorem c13_byte_span_is_char_span_iff : forall s bs be cs ce,
   char_of_byte s bs = Ret cs -> char_of_byte s be = Ret ce -> bs <= be ->
   ((bs = cs /\ be = ce) <-> ascii_before_byte s be = true).
 Proof. exact byte_span_is_char_span_iff. Qed.
 Print Assumptions c13_byte_span_is_char_span_iff.
 
-(* conditional on the repair of F9 (token byte offsets converted to character offsets before `composed` --
-   byte_span_location, what fixes/F9-byte-to-char-spans.diff does): a parser error over tokens i..j of ordered tokens on
-   character boundaries is reported without a panic at the position of the characters where token i starts and token
-   j-1 ends.  The full-strength parser statement, ready for the day the conversion is in the code. *)
-Theorem c13_parser_error_located_if_converted : forall s toks i j,
-  let sp := map_span toks i j 1 in
-  toks_okb 0 toks = true -> i < j -> j <= length toks ->
-  boundary s (sp_start sp) -> boundary s (sp_end sp) ->
-  exists cs ce,
-    byte_span_location s sp = Ret (Some (locate (lines s) cs 0, locate (lines s) ce 0)) /\
-    cs <= ce /\ ce <= length s /\ byte_of_char s cs = sp_start sp /\ byte_of_char s ce = sp_end sp.
-Proof. exact parser_error_located_if_converted. Qed.
-Print Assumptions c13_parser_error_located_if_converted.
-
-(* ---- the repaired pipeline, PREPARED (fixes/F9-byte-spans-converted-in-composed.diff passes prqlc's whole test suite
-   unedited; it is not in /repo, so these are statements about Model/Span.v composed_one_fixed, not about HEAD) ----
-   FULL STRENGTH, no ASCII hypothesis: a parser error over tokens i..j is reported without a panic, as the character span
-   of the text from the start of token i to the end of token j-1, located at both ends. *)
-Theorem c13_parser_error_located : forall s toks i j,
-  let sp := map_span toks i j 1 in
-  toks_okb 0 toks = true -> i < j -> j <= length toks ->
-  boundary s (sp_start sp) -> boundary s (sp_end sp) ->
-  exists cs ce,
-    composed_one_fixed [(1, s)] (Some sp) = Ret (Some (Span cs ce 1), Some (locate (lines s) cs 0, locate (lines s) ce 0)) /\
-    cs <= ce /\ ce <= length s /\ byte_of_char s cs = sp_start sp /\ byte_of_char s ce = sp_end sp.
-Proof. exact parser_error_located_fixed. Qed.
-Print Assumptions c13_parser_error_located.
-
-(* ... and it changes nothing for lexer errors (no double conversion: the seeded change C13/4 is exactly the version of
-   this repair that forgets to turn the lexer's character spans into byte spans first) *)
-Theorem c13_lexer_error_unchanged_by_repair : forall tree s bs be sid,
-  find (fun p => Nat.eqb (fst p) sid) tree = Some (sid, s) ->
-  boundary s bs -> boundary s be -> bs <= be ->
-  lexer_error_reported_fixed tree s bs be sid = lexer_error_reported tree s bs be sid.
-Proof. exact lexer_error_reported_fixed_same. Qed.
-Print Assumptions c13_lexer_error_unchanged_by_repair.
+(* `composed` never panics for an ordered span inside the character length, whatever its unit *)
+Theorem c13_composed_total_in_bounds : forall s sp,
+  sp_start sp <= sp_end sp -> sp_start sp <= length s -> sp_end sp <= length s ->
+  composed_one [(sp_src sp, s)] (Some sp) <> Panic.
+Proof. exact composed_one_total_in_bounds. Qed.
+Print Assumptions c13_composed_total_in_bounds.
 
 (* ---- interpolation rebasing (`span + 2`) ----
    Full statement (FALSE: triple-quoted f/s-strings): forall tok q i_s i_e, interp_rebase tok i_s i_e = interp_actual tok q i_s i_e *)
@@ -363,7 +298,8 @@ Proof. vm_compute. reflexivity. Qed.
 (* the id of the 65536th file is 0 (the id of std.prql) and the 65537th takes id 1 from the first *)
 Example c13_ex_u16_wrap : (u16 (65535 + 1), u16 (65536 + 1), u16 (0 + 1))%N = (0, 1, 1)%N.
 Proof. vm_compute. reflexivity. Qed.
-Example c13_ex_fixed : composed_one_fixed [(1, [233; 43]%N)] (Some (Span 2 3 1)) = Ret (Some (Span 1 2 1), Some ((0, 1), (0, 2))).
+(* the former F9 witness: e-acute then `+`, token `+` at bytes 2..3 = characters 1..2 *)
+Example c13_ex_nonascii : parser_error_reported [233; 43]%N [(0, 2); (2, 3)] 1 2 = Ret (Some (Span 1 2 1), Some ((0, 1), (0, 2))).
 Proof. vm_compute. reflexivity. Qed.
 Example c13_ex_partial_hyp : ascii_before_byte [102;114;111;109;32;233]%N 5 = true.
 Proof. vm_compute. reflexivity. Qed.
